@@ -141,6 +141,7 @@ def curOp (p : Proc) : Option Op :=
   | .cWf | .cCnt => some .contig
   | .iAcq | .iIdxLen | .iRel => some .iter
   | .fAcq | .fPathsGet | .fRemove | .fPathsClear | .fIdxClear | .fCntZero | .fWfZero | .fRel => some .flush
+  | .xClose => some .close
 
 /-- how many times the process holds the lock, as a function of its control state -/
 def dep (p : Proc) : Nat :=
@@ -176,12 +177,12 @@ structure LocA (scripts : List (List Op)) (s : St) (i : Nat) (p : Proc) : Prop w
   depth : p.depth = dep p
   lock : 0 < dep p ↔ s.lock = some i
   identLt : ∀ w, p.ident = some w → w < s.paths.length
-  openId : p.pc ≠ .oRel → p.pc ≠ .oOpenW → p.wOpen = p.ident.isSome
+  openId : p.wOpen = true → p.ident.isSome = true     -- (a closed handle keeps the identifier: `close()`)
   oPc : isO p.pc = true → p.wOpen = false
   sPc : isS p.pc = true → p.wOpen = true
   oIdNone : p.pc = .oAcq ∨ p.pc = .oPathsLen ∨ p.pc = .oPathsAppend → p.ident = none
   oIdSome : p.pc = .oRel ∨ p.pc = .oOpenW → p.ident.isSome = true
-  noGet : p.pc ≠ .oPathsGet ∧ p.pc ≠ .oOpenA
+  getId : p.pc = .oPathsGet ∨ p.pc = .oOpenA → p.ident.isSome = true
   tmpPaths : p.pc = .oPathsAppend → p.tmp = s.paths.length
 
 structure InvA (scripts : List (List Op)) (s : St) : Prop where
